@@ -685,7 +685,15 @@ def vectorised_formula(chk, rel, fn0, name, perturbed):
     if not ok and (nested or len({s_.limits for s_ in got.atoms(sp.Sum)}) > 1):
         raise Undecided(f"whole-array formula {str(got)[:120]} is not in a comparable form")
     label = "rho[i,j,k] = sum_l w_l (f[i,j,k,l]" + (" - f_eq[i,l])" if perturbed else ")")
+    if ok and part is not None and caller_prepares_output(chk, name, R["rho"]):
+        pre = caller_prepares_output(chk, name, R["rho"])
+        chk.ob("F3-density-sum", fn0, label, None,
+               f"the kernel writes the weighted sum into `rho.{part}` only; the caller touches the density storage before the call "
+               f"(`{pre[0][:60]}`): whether the other part is reset there is not decided", file=rel, func=name)
+        return True
     if ok and part is not None:
+        # AUDIT: the other part keeps its previous content = the kernel stores into one part only (every store of the whole-array
+        # reading), the annotation admits complex storage, and no statement of any caller touches the output storage before the call
         chk.ob("F3-density-sum", fn0, label, False,
                f"the kernel writes the weighted sum into `rho.{part}` only, and `rho` may be complex (its annotation admits "
                f"complex128[:,:,:], the storage the simulation uses because rho later holds its Fourier modes): the "
@@ -694,10 +702,10 @@ def vectorised_formula(chk, rel, fn0, name, perturbed):
         return True
     if part is not None:
         raise Undecided(f"store into `rho.{part}` of a formula that is not recognised")
-    chk.ob("F3-density-sum", fn0, label, bool(ok),
+    okv, whyv = (True, "") if ok else formula_verdict(got, spec, q, g, fe if perturbed else None, (i, j, k, l), nc, row if perturbed else None)
+    chk.ob("F3-density-sum", fn0, label, okv,
            "density is the weighted sum over v of " + ("f minus the equilibrium of the same radius row" if perturbed else "f") +
-           " (whole-array form)" if ok else f"extracted formula {str(got)[:200]} differs from the specification {spec}",
-           file=rel, func=name, facts={"code": str(got)[:300], "spec": str(spec)})
+           " (whole-array form)" if okv else whyv, file=rel, func=name, facts={"code": str(got)[:300], "spec": str(spec)})
     return True
 
 
@@ -1024,6 +1032,189 @@ def feq_rv_against_caller(chk, name, rel, fn0, got, spec, label):
     return True
 
 
+def formula_verdict(got, spec, q, g, fe, idx, nc, row=None):
+    """three-valued comparison of the extracted element formula with the specification sum_l q(l) (g(i,j,k,l) - fe(row,l)):
+    -> (True, '') equal ; (False, diagnosis) provably different ; (None, why) not decided.
+    AUDIT - the diagnosis "differs from the specification" is made only on one of these grounds:
+      * a product of the formula pairs the weight of one velocity point with the value at ANOTHER one (q(A) * g(.., B) with A - B not
+        identically zero), takes f at another (r, theta, z) point or the equilibrium of another radius, contains a value without a weight
+        or a weight twice: arrays are arbitrary (independent atoms), so such a product cannot be part of sum_l q_l (f_l - feq_l);
+      * the formula is made of plain sums over the whole range 0 .. nc-1 and polynomial terms (no conditional, floor, modulo), where
+        the polynomial identity test (summand-wise) is decisive.
+    A formula with conditionals / partial ranges / floors that passes the pairing test but is not proved equal is UNDECIDED."""
+    from ..symx import ITE
+    i, j, k, l = idx
+    got = sp.sympify(got)
+    if alg_equal(got, spec):
+        return True, ""
+
+    def terms(e):
+        e = sp.expand(e)
+        if isinstance(e, sp.Add):
+            for a in e.args:
+                yield from terms(a)
+        elif isinstance(e, sp.Sum):
+            yield from terms(e.function)
+        elif isinstance(e, ITE):
+            for a in e.args[1:]:
+                yield from terms(a)
+        elif isinstance(e, sp.Piecewise):
+            for a, _ in e.args:
+                yield from terms(a)
+        elif isinstance(e, sp.Mul) and any(isinstance(a, (sp.Sum, ITE, sp.Piecewise)) for a in e.args):
+            rest = sp.Mul(*[a for a in e.args if not isinstance(a, (sp.Sum, ITE, sp.Piecewise))])
+            for a in e.args:
+                if isinstance(a, (sp.Sum, ITE, sp.Piecewise)):
+                    for t in terms(a):
+                        yield rest * t
+        else:
+            yield e
+    try:
+        for t in terms(got):
+            facs = []
+            for f_ in sp.Mul.make_args(t):
+                b_, e_ = f_.as_base_exp()
+                facs.append((b_, e_))
+            qs = [(b_, e_) for b_, e_ in facs if getattr(b_, "func", None) == q]
+            gs = [b_ for b_, _ in facs if getattr(b_, "func", None) == g]
+            fs = [b_ for b_, _ in facs if fe is not None and getattr(b_, "func", None) == fe]
+            if not (qs or gs or fs):
+                continue
+            if (gs or fs) and not qs:
+                return False, f"the term `{t}` enters the density without a quadrature weight"
+            if len(qs) > 1 or any(e_ != 1 for _, e_ in qs) or len(gs) + len(fs) > 1:
+                return False, f"the term `{t}` is not a weight times one value (a weight applied twice, or a product of values)"
+            A = qs[0][0].args[0]
+            for v in gs + fs:
+                B = v.args[-1]
+                if sp.simplify(A - B) != 0:
+                    return False, (f"the term `{t}` multiplies the value at velocity index `{B}` by the weight of velocity index `{A}`: the "
+                                   "quadrature weights are not symmetric for a general v grid, so this is not the velocity integral")
+            for v in gs:
+                if any(sp.simplify(a_ - b_) != 0 for a_, b_ in zip(v.args[:3], (i, j, k))):
+                    return False, f"the term `{t}` takes the distribution at the point {v.args[:3]} for rho[i, j, k]"
+            for v in fs:
+                d_ = sp.simplify(v.args[0] - (row if row is not None else i))
+                if d_ != 0:
+                    return False, (f"the term `{t}` subtracts the equilibrium of row `{v.args[0]}` for the radius of index "
+                                   f"`{row if row is not None else i}`: the equilibrium of another radius")
+    except Exception as ex:
+        return None, f"the products of the extracted formula were not enumerated ({type(ex).__name__})"
+    plain = not got.has(ITE) and not got.has(sp.Piecewise) and not got.has(sp.floor) and not got.has(sp.ceiling) and \
+        not any(str(f_.func) == "mod" for f_ in got.atoms(sp.Function)) and \
+        all(len(s_.limits) == 1 and s_.limits[0][1] == 0 and sp.simplify(s_.limits[0][2] - (nc - 1)) == 0 for s_ in got.atoms(sp.Sum)) and \
+        not any(s_.function.has(sp.Sum) for s_ in got.atoms(sp.Sum))
+    if plain:
+        return False, f"extracted formula {str(got)[:200]} differs from the specification {spec}"
+    # the specification with some velocity points left out: every sum runs over a sub-range lo .. hi of 0 .. nc-1 (by constants), and
+    # with the full range put back the formula IS the specification: the terms of the points left out are missing
+    try:
+        sums = list(got.atoms(sp.Sum))
+        if sums and not got.has(ITE) and not got.has(sp.Piecewise) and all(len(s_.limits) == 1 for s_ in sums):
+            cut = []
+            for s_ in sums:
+                lo_, hi_ = s_.limits[0][1], s_.limits[0][2]
+                a_, b_ = sp.simplify(lo_), sp.simplify((nc - 1) - hi_)
+                if not (a_.is_Integer and b_.is_Integer and a_ >= 0 and b_ >= 0):
+                    cut = None
+                    break
+                cut.append((s_, a_, b_))
+            if cut and any(a_ > 0 or b_ > 0 for _, a_, b_ in cut):
+                full = got.xreplace({s_: sp.Sum(s_.function, (s_.limits[0][0], 0, nc - 1)) for s_, _, _ in cut})
+                if alg_equal(full, spec):
+                    s_, a_, b_ = next(x for x in cut if x[1] > 0 or x[2] > 0)
+                    return False, (f"the sum over the velocity points runs over {s_.limits[0][1]} .. {s_.limits[0][2]} only: the first {a_} / last "
+                                   f"{b_} point(s) of the v grid never enter the density (with the full range 0 .. nc-1 the formula is the "
+                                   "specification)")
+    except Exception:
+        pass
+    return None, (f"extracted formula {str(got)[:160]} pairs every weight with the value at its own velocity point but is written with "
+                  "conditionals / partial ranges: its equality with the specification was not proved")
+
+
+def loop_kernel_in_fragment(fn):
+    """the element-loop reading (engine SymExec) is asked only about code made of the constructs it is known to model faithfully:
+    `for x in range(n)` / `range(a, b)` (no step, no keywords, plain name as target, no else), assignments and `+=` / `-=` / `*=` to
+    names and to elements addressed by plain index expressions, arithmetic, `.shape` unpacking, docstrings, asserts.  Anything else
+    (a stepped or reversed range, enumerate / zip / ndindex, while, if, comprehensions, calls, walrus, star expressions, nested
+    functions) raises Undecided at the point where it is met - the engine reads some of them by a default that guesses (a
+    three-argument range as its first two arguments)."""
+    def expr(e):
+        if isinstance(e, (ast.Name, ast.Slice)) or e is None:
+            return
+        if isinstance(e, ast.Constant):
+            if isinstance(e.value, (int, float)) and not isinstance(e.value, bool):
+                return
+            raise Undecided(f"constant `{e.value!r}`")
+        if isinstance(e, ast.BinOp) and isinstance(e.op, (ast.Add, ast.Sub, ast.Mult, ast.Div, ast.FloorDiv, ast.Mod)):
+            expr(e.left)
+            expr(e.right)
+            return
+        if isinstance(e, ast.UnaryOp) and isinstance(e.op, (ast.USub, ast.UAdd)):
+            expr(e.operand)
+            return
+        if isinstance(e, ast.Compare) and len(e.ops) == 1 and isinstance(e.ops[0], (ast.Eq, ast.NotEq, ast.Lt, ast.LtE, ast.Gt, ast.GtE)):
+            expr(e.left)
+            expr(e.comparators[0])
+            return
+        if isinstance(e, ast.Subscript):
+            expr(e.value)
+            for x in (e.slice.elts if isinstance(e.slice, ast.Tuple) else [e.slice]):
+                if isinstance(x, ast.Slice):
+                    raise Undecided(f"slice in `{src(e)[:40]}`")
+                expr(x)
+            return
+        if isinstance(e, ast.Attribute) and e.attr in ("shape", "real", "size") and isinstance(e.value, ast.Name):
+            return
+        if isinstance(e, ast.Tuple):
+            for x in e.elts:
+                expr(x)
+            return
+        if isinstance(e, ast.Call) and isinstance(e.func, ast.Name) and e.func.id in ("float", "int") and len(e.args) == 1 and not e.keywords:
+            expr(e.args[0])
+            return
+        if isinstance(e, ast.Call) and isinstance(e.func, ast.Name) and e.func.id == "len" and len(e.args) == 1 and isinstance(e.args[0], ast.Name):
+            return
+        raise Undecided(f"expression `{src(e)[:50]}` is outside the fragment the loop reading models")
+
+    def block(stmts):
+        for st in stmts:
+            if isinstance(st, ast.Expr) and isinstance(st.value, ast.Constant):
+                continue
+            if isinstance(st, (ast.Pass, ast.Assert, ast.Import, ast.ImportFrom)):
+                continue
+            if isinstance(st, ast.For):
+                it = st.iter
+                if not (isinstance(st.target, ast.Name) and not st.orelse and isinstance(it, ast.Call) and isinstance(it.func, ast.Name)
+                        and it.func.id == "range" and 1 <= len(it.args) <= 2 and not it.keywords
+                        and not any(isinstance(a, ast.Starred) for a in it.args)):
+                    raise Undecided(f"loop `for {src(st.target)} in {src(it)[:40]}` (only range(n) / range(a, b) over a plain name are modelled)")
+                for a in it.args:
+                    expr(a)
+                block(st.body)
+                continue
+            if isinstance(st, ast.Assign) and len(st.targets) == 1:
+                t = st.targets[0]
+                if isinstance(t, ast.Tuple) and all(isinstance(x, ast.Name) for x in t.elts):
+                    expr(st.value)
+                    continue
+                if isinstance(t, (ast.Name, ast.Subscript)):
+                    expr(t)
+                    expr(st.value)
+                    continue
+            if isinstance(st, ast.AugAssign) and isinstance(st.op, (ast.Add, ast.Sub, ast.Mult)) and isinstance(st.target, (ast.Name, ast.Subscript)):
+                expr(st.target)
+                expr(st.value)
+                continue
+            if isinstance(st, ast.If) and isinstance(st.test, ast.Compare):
+                expr(st.test)
+                block(st.body)
+                block(st.orelse)
+                continue
+            raise Undecided(f"statement `{src(st)[:50]}` is outside the fragment the loop reading models")
+    block(fn.body)
+
+
 def kernel_formula(chk, rel, name, perturbed):
     fn = chk.func(rel, name)
     fn0 = fn
@@ -1061,11 +1252,27 @@ def kernel_formula(chk, rel, name, perturbed):
         return
     ex = SymExec(fn, args, calls=dict(SPLINE_HANDLERS))
     i, j, k, l = (Symbol(n, integer=True) for n in "ijkl")
+    # the generic element is read at index symbols that no loop variable of the kernel can be called (a kernel whose loop over v is
+    # called `j` would otherwise capture the index the element is read at)
+    probes = tuple(Symbol(f"_p{n}", integer=True) for n in range(3))
     try:
         try:
+            loop_kernel_in_fragment(fn)
             ex.run()
             n_prior = len(prior)
-            got = ex.env[R["rho"]].read([i, j, k])
+            got = sp.sympify(ex.env[R["rho"]].read(list(probes)))
+            loopvars = {Symbol(n.target.id, integer=True) for n in ast.walk(fn) if isinstance(n, ast.For) and isinstance(n.target, ast.Name)}
+            sums = list(got.atoms(sp.Sum))
+            if any(len(s_.limits) != 1 for s_ in sums):
+                raise Undecided("a sum over several variables")
+            if any(s_.function.has(sp.Sum) for s_ in sums):
+                raise Undecided("nested sums in the extracted formula")
+            # one name for the summation variables (sums over one range are compared summand-wise)
+            got = got.xreplace({s_: sp.Sum(s_.function.subs(s_.limits[0][0], l), (l,) + tuple(s_.limits[0][1:])) for s_ in sums})
+            stray = got.free_symbols & (loopvars | {i, j, k})
+            if stray:
+                raise Undecided(f"variables {sorted(map(str, stray))} of the kernel's loops remain in the stored value")
+            got = got.subs(dict(zip(probes, (i, j, k))), simultaneous=True)
         except Undecided:
             raise
         except Exception as ie:              # the loop interpreter met a construct it does not model
@@ -1101,7 +1308,15 @@ def kernel_formula(chk, rel, name, perturbed):
                                    lab_, R):
             return
     flows = prior_content_flow(fn, R["rho"]) if ok and n_prior else None
+    if ok and flows and not sp.sympify(got).has(args[R["rho"]].fn) and caller_prepares_output(chk, name, R["rho"]):
+        pre = caller_prepares_output(chk, name, R["rho"])
+        chk.ob("F3-density-sum", fn0, "rho[i,j,k] = sum_l w_l (f[i,j,k,l]" + (" - f_eq[i,l])" if perturbed else ")"), None,
+               f"`{flows[:70]}` reads an element of rho that the kernel has not stored yet; the caller touches the density storage before "
+               f"the call (`{pre[0][:60]}`): whether it holds finite values then is not decided", file=rel, func=name)
+        return
     if ok and flows and not sp.sympify(got).has(args[R["rho"]].fn):
+        # AUDIT: a value read from rho before the kernel stored it reaches what is stored (def-use through locals), it cancels only
+        # algebraically, and no caller writes the output storage before the call (so it may hold anything, nan included)
         chk.ob("F3-density-sum", fn0, "rho[i,j,k] = sum_l w_l (f[i,j,k,l]" + (" - f_eq[i,l])" if perturbed else ")"), False,
                f"`{flows[:70]}` reads an element of rho that the kernel has not stored yet, and the value read goes into what is stored: "
                "it drops out of the formula only algebraically (x * 0.0, x - x), which floating-point arithmetic does not honour for "
@@ -1122,10 +1337,74 @@ def kernel_formula(chk, rel, name, perturbed):
                " (no statement of the kernel stores into whole elements of rho or into the other part)", file=rel, func=name,
                facts={"code": str(got)[:300], "spec": str(spec), "part": part})
         return
-    chk.ob("F3-density-sum", fn, "rho[i,j,k] = sum_l w_l (f[i,j,k,l]" + (" - f_eq[i,l])" if perturbed else ")"), ok,
-           "density is the weighted sum over v of " + ("f minus the equilibrium of the same radius row" if perturbed else "f") if ok else
-           f"extracted formula {str(got)[:200]} differs from the specification {spec}", file=rel, func=name,
-           facts={"code": str(got)[:300], "spec": str(spec)})
+    okv, whyv = (True, "") if ok else formula_verdict(got, spec, q, g, args[R["feq"]].fn if perturbed else None, (i, j, k, l), nc, row if perturbed else None)
+    chk.ob("F3-density-sum", fn, "rho[i,j,k] = sum_l w_l (f[i,j,k,l]" + (" - f_eq[i,l])" if perturbed else ")"), okv,
+           "density is the weighted sum over v of " + ("f minus the equilibrium of the same radius row" if perturbed else "f") if okv else
+           whyv, file=rel, func=name, facts={"code": str(got)[:300], "spec": str(spec)})
+
+
+def enclosing_def(n):
+    p_ = parent_of(n)
+    while p_ is not None and not isinstance(p_, ast.FunctionDef):
+        p_ = parent_of(p_)
+    return p_
+
+
+def _weight_free(value, fn, cls_node, methods, depth=0, seen=None):
+    """can the value NOT depend on the quadrature weights of the v spline?  True when nothing it is computed from - followed through
+    the locals of the method and the attributes of the class - is the weights, the spline basis handed to the constructor (from
+    which they can be computed), a method of the class (which can read them) or a function / attribute whose name speaks of
+    quadrature, integrals, weights or the interpolator.  Module-level functions are pure functions of their arguments here."""
+    seen = seen if seen is not None else set()
+    if depth > 6 or fn is None:
+        return False
+    words = ("quad", "interpolator", "integral", "weight", "spline")
+    init = next((st for st in cls_node.body if isinstance(st, ast.FunctionDef) and st.name == "__init__"), None) \
+        if isinstance(cls_node, ast.ClassDef) else None
+    ip = [a.arg for a in init.args.args] if init is not None else []
+    spline_param = ip[2] if len(ip) > 2 else "bspline"
+    params = {a.arg for a in fn.args.args}
+    bound_here = {n.id for n in ast.walk(value) if isinstance(n, ast.Name) and isinstance(n.ctx, ast.Store)}      # comprehension targets
+    for n in ast.walk(value):
+        if isinstance(n, ast.Call):
+            f = src(n.func)
+            if any(w_ in f.lower() for w_ in words):
+                return False
+            if isinstance(n.func, ast.Attribute) and src(n.func.value) == "self" and n.func.attr in methods:
+                return False
+        if isinstance(n, ast.Attribute) and isinstance(n.value, ast.Name) and n.value.id == "self":
+            key = ("attr", n.attr)
+            if any(w_ in n.attr.lower() for w_ in words):
+                return False
+            if key in seen:
+                continue
+            seen.add(key)
+            for d in ast.walk(cls_node):
+                tg = d.targets if isinstance(d, ast.Assign) else [d.target] if isinstance(d, (ast.AugAssign, ast.AnnAssign)) else []
+                if any(isinstance(x, ast.Attribute) and src(x) == src(n) and isinstance(x.ctx, ast.Store) for t in tg for x in ast.walk(t)):
+                    if getattr(d, "value", None) is None or not _weight_free(d.value, enclosing_def(d), cls_node, methods, depth + 1, seen):
+                        return False
+        if isinstance(n, ast.Name) and isinstance(n.ctx, ast.Load) and n.id not in bound_here and n.id != "self":
+            if n.id == spline_param and fn is init:
+                # two numbers of the spline (its domain, its degree, a count) do not determine the weights; its knots / break points /
+                # integrals do
+                par_ = getattr(n, "_parent", None)
+                if isinstance(par_, ast.Attribute) and par_.attr in ("domain", "degree", "nbasis", "ncells", "periodic"):
+                    continue
+                return False
+            if any(w_ in n.id.lower() for w_ in words):
+                return False
+            key = ("name", fn.name, n.id)
+            if key in seen or n.id in params:
+                continue
+            seen.add(key)
+            for d in ast.walk(fn):
+                tg = d.targets if isinstance(d, ast.Assign) else [d.target] if isinstance(d, (ast.AugAssign, ast.AnnAssign, ast.For, ast.comprehension)) else []
+                if any(isinstance(x, ast.Name) and x.id == n.id and isinstance(x.ctx, ast.Store) for t in tg for x in ast.walk(t)):
+                    v_ = getattr(d, "value", None) if not isinstance(d, (ast.For, ast.comprehension)) else d.iter
+                    if v_ is None or not _weight_free(v_, fn, cls_node, methods, depth + 1, seen):
+                        return False
+    return True
 
 
 def equilibrium_same_quadrature(chk):
@@ -1145,9 +1424,22 @@ def equilibrium_same_quadrature(chk):
         for sb in subs:
             rhs = sb.value if isinstance(sb, ast.AugAssign) else sb.right
             attrs = [a for a in ast.walk(rhs) if isinstance(a, ast.Attribute) and isinstance(a.value, ast.Name) and a.value.id == "self"]
+            cls_ = parent_of(init)
+            meths_ = {st.name for st in cls_.body if isinstance(st, ast.FunctionDef)} if isinstance(cls_, ast.ClassDef) else set()
             for a in attrs:
-                defs = [n for n in ast.walk(init) if isinstance(n, ast.Assign) and src(n.targets[0]) == src(a)]
-                if defs and not any("_quad_coeffs" in src(d.value) or "quad" in src(d.value) for d in defs):
+                # AUDIT: "computed without the quadrature weights" = EVERY binding of the attribute in the class (a `None` that only
+                # marks "not computed yet" aside) is an expression of numpy operations on parameters / attributes that mentions the
+                # weights nowhere, calls no method of the class and no function of the repository (either could apply the weights), and
+                # the attribute is bound by plain assignments only; anything else is not decided
+                scope = cls_ if isinstance(cls_, ast.ClassDef) else init
+                defs = [n for n in ast.walk(scope) if isinstance(n, ast.Assign) and any(src(t) == src(a) for t in n.targets)]
+                other = [n for n in ast.walk(scope) if isinstance(n, (ast.AugAssign, ast.AnnAssign, ast.For, ast.withitem)) and
+                         any(isinstance(x, ast.Attribute) and src(x) == src(a) and isinstance(x.ctx, ast.Store) for x in ast.walk(n))] + \
+                    [n for n in ast.walk(scope) if isinstance(n, ast.Assign) and
+                     any(isinstance(t, (ast.Tuple, ast.List, ast.Subscript)) and src(a) in src(t) for t in n.targets)]
+                defs = [d for d in defs if not (isinstance(d.value, ast.Constant) and d.value.value is None)]
+                opaque = any(not _weight_free(d.value, enclosing_def(d), scope, meths_) for d in defs)
+                if defs and not other and not opaque:
                     bad = (f"`{src(sb)[:70]}` subtracts `{src(a)}`, which the constructor computes as `{src(defs[0].value)[:80]}` without the "
                            "quadrature weights: the velocity integral of the equilibrium taken another way (closed form, other rule) is "
                            "not the integral of the interpolated equilibrium, so the perturbed density of the equilibrium is not zero "
@@ -1363,7 +1655,16 @@ def kernel_reached(chk, fn, c, kname, m):
                      for t, _ in gs for x in ast.walk(t)) or \
             any(isinstance(x, ast.Compare) and any(isinstance(o, (ast.Lt, ast.LtE, ast.Gt, ast.GtE)) for o in x.ops) and
                 any(isinstance(y, ast.Constant) and isinstance(y.value, float) for y in ast.walk(x)) for t, _ in gs for x in ast.walk(t))
-        if stores or approx:
+        empty_only = any(isinstance(x, ast.Attribute) and x.attr in ("size", "shape") for t, _ in gs for x in ast.walk(t)) or \
+            any(isinstance(x, ast.Call) and src(x.func) in ("len", "np.size", "np.prod") for t, _ in gs for x in ast.walk(t))
+        if (stores or approx) and empty_only and not approx:
+            # a test on the extent of the block (a process that owns no point): the kernel would store nothing there either
+            chk.ob("E2-kernel-reached", node, f"DensityFinder.{m}: {kname} on every path", None,
+                   f"when `{cond}` the method does not call {kname}; the test looks at the extent of the local block: whether the path is "
+                   "taken for an empty block only is not decided", file=U.POISSON, func=f"DensityFinder.{m}")
+        elif stores or approx:
+            # AUDIT: the path that skips the kernel stores something else into the density (a store whose target names rho) or is taken
+            # on a comparison up to a tolerance; the condition is not a test on the extent of the block
             chk.ob("E2-kernel-reached", node, f"DensityFinder.{m}: {kname} on every path", False,
                    f"when `{cond}` the method returns without calling {kname}" +
                    (f" after `{src(stores[0])[:50]}`" if stores else "") + ": on that path the density grid is not the velocity integral of "
@@ -1411,10 +1712,15 @@ def quadrature_system(chk):
                 h = methods[n.func.attr]
                 if any(isinstance(r, ast.Return) and r.value is not None and flows(r.value, h, seen + (("ret", n.func.attr),)) for r in ast.walk(h)):
                     return True
-            if isinstance(n, ast.Name) and isinstance(n.ctx, ast.Load) and (ctx.name, n.id) not in seen:
+            if isinstance(n, ast.Name) and isinstance(n.ctx, ast.Load) and (ctx.name, n.id) not in seen and n.id not in ("self", "np", "numpy"):
                 sn = seen + ((ctx.name, n.id),)
                 for d in ast.walk(ctx):
+                    # names bound by a loop / comprehension / with: what they run over
+                    if isinstance(d, (ast.For, ast.comprehension)) and any(isinstance(x, ast.Name) and x.id == n.id for x in ast.walk(d.target)) \
+                            and flows(d.iter, ctx, sn):
+                        return True
                     tg = d.targets if isinstance(d, ast.Assign) else [d.target] if isinstance(d, (ast.AugAssign, ast.AnnAssign)) else []
+                    tg = [y for t in tg for y in (t.elts if isinstance(t, (ast.Tuple, ast.List)) else [t])]
                     for t in tg:
                         base = t
                         while isinstance(base, (ast.Subscript, ast.Attribute)):
@@ -1455,9 +1761,17 @@ def quadrature_system(chk):
                 if not known:
                     out.append(src(n))
             if isinstance(n, ast.Name) and isinstance(n.ctx, ast.Load) and (ctx.name, n.id) not in seen:
+                plain_defs = 0
                 for d in ast.walk(ctx):
                     if isinstance(d, ast.Assign) and any(isinstance(t, ast.Name) and t.id == n.id for t in d.targets):
+                        plain_defs += 1
                         out += unresolved(d.value, ctx, seen + ((ctx.name, n.id),))
+                # bound in another way (unpacking, a with statement, a walrus, an import): not followed
+                other_bind = any(isinstance(x, ast.Name) and x.id == n.id and isinstance(x.ctx, ast.Store) for x in ast.walk(ctx))
+                if not plain_defs and other_bind and n.id not in [a.arg for a in ctx.args.args] and \
+                        not any(isinstance(d, (ast.For, ast.comprehension, ast.AugAssign)) and
+                                any(isinstance(x, ast.Name) and x.id == n.id for x in ast.walk(d.target)) for d in ast.walk(ctx)):
+                    out.append(f"`{n.id}` (bound by unpacking / with / import)")
         return out
     cls_node = chk.mod(rel).cls("SplineInterpolator1D")
 
@@ -1597,7 +1911,28 @@ class _TableRoles:
     def __setattr__(self, k, v):
         setattr(self._chk, k, v)
 
+    ELEMENTWISE = {"add", "subtract", "multiply", "divide", "true_divide", "floor_divide", "power", "maximum", "minimum", "fmax", "fmin",
+                   "where", "copyto", "hypot", "arctan2", "mod", "fmod", "remainder", "equal", "not_equal", "less", "greater",
+                   "less_equal", "greater_equal", "logical_and", "logical_or", "isclose", "allclose", "array_equal"}
+
     def ob(self, rule, node, construct, ok, msg="", **kw):
+        if ok is False and "element-wise combination" in msg:
+            # AUDIT: engine C reports `element-wise combination of axes A and B` for the array operands of every operation it does not
+            # know, as if it paired them entry by entry.  That is true of the arithmetic operators and the binary ufuncs listed above,
+            # between operands that are not placed on different axes first (np.newaxis / None / reshape / expand_dims make the
+            # combination a broadcast, i.e. an outer pairing).  For anything else (np.take, np.dot, einsum, ...) the diagnosis is not
+            # established: UNDECIDED
+            f_ = node.func if isinstance(node, ast.Call) else None
+            fname = f_.attr if isinstance(f_, ast.Attribute) else f_.id if isinstance(f_, ast.Name) else None
+            placed = any((isinstance(x, ast.Constant) and x.value is None and isinstance(getattr(x, "_parent", None), (ast.Tuple, ast.Subscript))) or
+                         (isinstance(x, ast.Attribute) and src(x) in ("np.newaxis", "numpy.newaxis")) or
+                         (isinstance(x, ast.Call) and src(x.func).split(".")[-1] in ("expand_dims", "reshape", "atleast_2d", "atleast_3d", "broadcast_to"))
+                         for x in (ast.walk(node) if isinstance(node, ast.AST) else []))
+            if (isinstance(node, ast.Call) and fname not in self.ELEMENTWISE) or placed:
+                ok = None
+                msg = ("engine C reads `" + str(construct)[:60] + "` as an entry-by-entry pairing of its array operands (" + msg[:120] +
+                       "), which is not established for " + ("operands placed on different axes (broadcast)" if placed else f"`{fname}`") +
+                       ": not decided")
         if rule == "C-coindexed-axes" and ok is False:
             # engine C pairs the arrays of a kernel by the NAMES of its loop variables; when the formula extracted from that kernel
             # equals the specification (every array indexed by the right variable: rule F3-density-sum), a mismatch found by names is
@@ -1997,16 +2332,28 @@ def equilibrium_table_content(chk, init, fv):
                                    f"the table (path {path})", init))
             continue
         bad = None
+        unproved = None
         for lo, hi, f in chain:
             got = f(i, j)
             same = sp.simplify(got - spec) == 0
-            if not same and (not got.has(FEQ) or got.atoms(sp.Function) - spec.atoms(sp.Function)):
+            if not same and not (getattr(got, "func", None) == FEQ and len(got.args) == len(spec.args)) and \
+                    (not got.has(FEQ) or got.atoms(sp.Function) - spec.atoms(sp.Function)):
                 # written with the profile functions instead of feq_vector: compare the formulas with f_eq written out
                 try:
                     ex_g = got.replace(FEQ, lambda *a: closed_form(chk, "f_eq", list(a)))
                     ex_s = spec.replace(FEQ, lambda *a: closed_form(chk, "f_eq", list(a)))
                     same = alg_equal(ex_g, ex_s) or sp.simplify(ex_g / ex_s - 1) == 0
                     if not same:
+                        # AUDIT: two closed forms with exp / tanh: "different" only when sympy's zero test refutes the identity;
+                        # a difference that was merely not simplified to zero is UNDECIDED
+                        try:
+                            refuted = (ex_g - ex_s).equals(0) is False
+                        except Exception:
+                            refuted = False
+                        if not refuted:
+                            unproved = (f"for the columns {lo} <= j < {hi} the entry [i, j] is {str(ex_g)[:200]}: its equality with "
+                                        "f_eq(r_i, v_j) was neither proved nor refuted")
+                            continue
                         bad = (f"for the columns {lo} <= j < {hi} the entry [i, j] is {str(ex_g)[:260]}; the equilibrium the kernels "
                                f"subtract is f_eq(r_i, v_j) = {str(ex_s)[:260]} (x0 = r points, x3 = v points)")
                         break
@@ -2014,11 +2361,25 @@ def equilibrium_table_content(chk, init, fv):
                 except Undecided:
                     pass
             if not same:
+                # AUDIT: both sides are the uninterpreted f_eq applied to arguments; they differ when an argument pair differs as a
+                # polynomial in independent atoms (x3(N3 - 1 - j) against x3(j), constants.kTi against constants.deltaRTi); a pair
+                # that is only not simplified to equal is UNDECIDED
+                proved = None
+                if got.func == FEQ and spec.func == FEQ and len(got.args) == len(spec.args):
+                    from sympy.core.function import AppliedUndef
+                    for x_, y_ in zip(got.args, spec.args):
+                        d_ = sp.expand(x_ - y_)
+                        if d_ != 0 and sp.simplify(d_) != 0 and all(isinstance(f_, AppliedUndef) for f_ in d_.atoms(sp.Function)) and \
+                                d_.is_polynomial(*d_.atoms(sp.Symbol, AppliedUndef)):
+                            proved = True
+                if not proved:
+                    unproved = f"for the columns {lo} <= j < {hi} the entry [i, j] is {str(got)[:200]}, not proved equal to or different from {spec}"
+                    continue
                 bad = (f"for the columns {lo} <= j < {hi} the entry [i, j] is {got}, the kernels need {spec} (x0 = r points, x3 = v "
                        "points)" + (": the value at another velocity point is stored, which is the same only if the v points are placed "
                                     "symmetrically about 0 point by point" if got.has(X3) and not got.has(X3(j)) else ""))
                 break
-        verdicts.append((bad is None, bad or "", init))
+        verdicts.append((False, bad, init) if bad is not None else (None, unproved, init) if unproved is not None else (True, "", init))
     if seen >= 16 and todo:
         verdicts.append((None, "too many branches in the constructor", init))
     if any(v is False for v, _, _ in verdicts):
@@ -2072,8 +2433,22 @@ def run(chk):
         got = ex.env["surface"].read([i, j])
         spec = FEQ(args["r_vec"].fn(i), args["vPar"].fn(j), *[args[n] for n in ("CN0", "kN0", "deltaRN0", "rp", "Cti", "kti", "deltaRti")])
         ok = alg_equal(got, spec)
+        if not ok:
+            # AUDIT: "the table entry is another value" = the entry is the uninterpreted f_eq applied to arguments one of which
+            # provably differs from the documented one (another point, constants in other roles); anything else is UNDECIDED
+            from sympy.core.function import AppliedUndef
+            got_ = sp.sympify(got)
+            proved = False
+            if getattr(got_, "func", None) == FEQ and len(got_.args) == len(spec.args):
+                for x_, y_ in zip(got_.args, spec.args):
+                    d_ = sp.expand(x_ - y_)
+                    if d_ != 0 and sp.simplify(d_) != 0 and all(isinstance(f_, AppliedUndef) for f_ in d_.atoms(sp.Function)) and \
+                            d_.is_polynomial(*d_.atoms(sp.Symbol, AppliedUndef)):
+                        proved = True
+            ok = False if proved else None
         chk.ob("F3-feq-table", fv, "surface[i,j] = f_eq(r_vec[i], vPar[j], ...)", ok,
-               "row i of the table is the equilibrium at radius r_i" if ok else f"table entry is {got}", file=U.INITF, func="feq_vector")
+               "row i of the table is the equilibrium at radius r_i" if ok else f"table entry is {got}" +
+               ("" if ok is False else ": not proved equal to or different from f_eq(r_vec[i], vPar[j], ...)"), file=U.INITF, func="feq_vector")
     except Undecided as e:
         chk.ob("F3-feq-table", fv, "feq_vector", None, f"outside the extractable fragment: {e}", file=U.INITF, func="feq_vector")
     init = chk.func(U.POISSON, "DensityFinder.__init__")
@@ -2126,7 +2501,14 @@ def run(chk):
         why = "the kernel writes the storage of the density grid itself"
         if oko is None and out is not None and so.startswith("rho.getAllData()"):
             rest = so[len("rho.getAllData()"):]
-            if rest in (".real", ".imag") or rest.startswith("["):
+            if isinstance(out, ast.Subscript) and src(out.value) == "rho.getAllData()" and \
+                    all((isinstance(x, ast.Slice) and x.lower is None and x.upper is None and x.step is None) or
+                        (isinstance(x, ast.Constant) and x.value is Ellipsis)
+                        for x in (out.slice.elts if isinstance(out.slice, ast.Tuple) else [out.slice])):
+                oko, why = True, "the kernel writes a view of the whole storage of the density grid"
+            elif (rest in (".real", ".imag") or rest.startswith("[")) and caller_prepares_output(chk, kname, KR.get("rho", "rho")):
+                why = f"the kernel writes `{so}`, a partial view of the density storage; the caller touches the storage before the call: not decided"
+            elif rest in (".real", ".imag") or rest.startswith("["):
                 oko = False
                 why = (f"the kernel writes `{so}`, a partial view of the density storage: for a complex density grid the "
                        "other part keeps whatever it held (e.g. the imaginary part left by the previous in-place Fourier transform), "
@@ -2145,7 +2527,22 @@ def run(chk):
             split_conv = fe_r is not None and isinstance(fe_r, ast.Subscript) and isinstance(fe_r.value, ast.Call) and \
                 src(fe_r.value.func) in ("np.array_split", "np.split", "numpy.array_split") and fe_r.value.args and \
                 src(fe_r.value.args[0]) == "self._fEq" and len(fe_r.value.args) > 1 and not isinstance(fe_r.value.args[1], (ast.List, ast.Tuple))
+            layout_rule = None
             if off == 0 and split_conv:
+                # AUDIT: numpy's rule (the first n % p blocks are the larger ones) against the rule the layout uses TODAY, read off
+                # Layout.__init__: starts = small_size * ranks + nBig * ranks // nRanks (the larger blocks spread over the ranks)
+                try:
+                    from ..core import contains as _contains
+                    layout_rule = _contains(chk.mod(U.LAYOUT).func("Layout.__init__"), "starts = small_size * ranks + nBig * ranks // nRanks",
+                                            vars=("starts", "small_size", "ranks", "nBig", "nRanks"))
+                except Exception:
+                    layout_rule = False
+            if off == 0 and split_conv and not layout_rule:
+                chk.ob("E2-row-offset", fe, f"{kname}: feq[i, l] with feq <- {src(fe)[:60]}", None,
+                       f"the rows of the equilibrium table are chosen with `{src(fe_r)[:70]}` (numpy's block rule); how the layout distributes "
+                       "the radial points was not recognised in Layout.__init__: whether the two agree is not decided", file=U.POISSON,
+                       func=f"DensityFinder.{m}")
+            elif off == 0 and split_conv:
                 chk.ob("E2-row-offset", fe, f"{kname}: feq[i, l] with feq <- {src(fe)[:60]}", False,
                        f"the rows of the equilibrium table are chosen with `{src(fe_r)[:70]}`: numpy cuts a table into equal blocks with the "
                        "larger ones first, which is not how the layout distributes the radial points over the processes (starts / ends of the "
@@ -2174,7 +2571,7 @@ def run(chk):
                     act_r = _resolved(fn, act_r.args[0])
                 first_local = False
                 if isinstance(act_r, ast.Subscript) and src(act_r.slice) == "0":
-                    base = act_r.value
+                    base = _resolved(fn, act_r.value)
                     if isinstance(base, ast.Attribute) and base.attr == "starts":
                         lay = _resolved(fn, base.value)
                         first_local = src(lay) in ("grid.getLayout(grid.currentLayout)", "grid._layout")
@@ -2227,8 +2624,24 @@ def run(chk):
                         if isinstance(n_, ast.Call) and isinstance(n_.func, ast.Attribute) and n_.func.attr == "feq_vector" and n_.args and \
                                 src(n_.args[0]) == t_:
                             derived.add(t_)
+                # AUDIT ("not from the table the constructor fills"): every attribute read is bound in the class by expressions that do not
+                # mention the table, and is never handed to a call nor stored into element-wise anywhere in the class (either could fill
+                # it with the equilibrium)
+                filled_elsewhere = set()
+                for t_ in tabs:
+                    for n_ in ast.walk(cls_):
+                        if isinstance(n_, ast.Call) and any(src(a_) == t_ or (isinstance(a_, ast.Subscript) and src(a_.value) == t_)
+                                                            for a_ in list(n_.args) + [k_.value for k_ in n_.keywords]) and \
+                                not any(x_ is n_ for x_ in ast.walk(fn)):
+                            filled_elsewhere.add(t_)
+                        if isinstance(n_, (ast.Assign, ast.AugAssign)) and any(isinstance(x_, ast.Subscript) and src(x_.value) == t_
+                                                                               for x_ in (n_.targets if isinstance(n_, ast.Assign) else [n_.target])):
+                            filled_elsewhere.add(t_)
                 if derived:
                     okf, whyf = True, f"the equilibrium rows come from {sorted(derived)}, which the class derives from the precomputed table"
+                elif filled_elsewhere:
+                    whyf = (f"the equilibrium argument `{src(fe_x)[:60]}` reads {sorted(tabs)}; {sorted(filled_elsewhere)} is filled through a call "
+                            "or element stores that were not followed")
                 elif defined == tabs:
                     okf = False
                     whyf = (f"the equilibrium argument `{src(fe_x)[:60]}` is taken from {sorted(tabs)}, not from the table self._fEq that the "
@@ -2260,7 +2673,9 @@ def run(chk):
                 params_ = {a.arg for a in init.args.args}
                 if src(a0) == "bspline":
                     okq = True
-                elif isinstance(a0, ast.Name) and a0.id in params_ or isinstance(a0, ast.Call):
+                elif isinstance(a0, ast.Name) and a0.id in params_:
+                    # AUDIT: the interpolator is built on another PARAMETER of the constructor (a spline rebuilt from the v spline by a
+                    # call is not followed: undecided)
                     badq = f"the weights come from an interpolator built on `{src(a0)[:60]}`, not on the constructor's v spline `bspline`"
     chk.pat("E3-weights-source", qc[0] if qc else init, "self._quad_coeffs", okq,
             "weights are the quadrature coefficients of the interpolator built on the constructor's spline", badq, file=U.POISSON,
